@@ -4,6 +4,7 @@ package main
 import (
 	"fmt"
 	"math/big"
+	"sort"
 	"strconv"
 	"strings"
 	"sync"
@@ -355,6 +356,35 @@ func constEq(a, b *T) bool {
 	return false
 }
 
+type lenProf struct {
+	n   int
+	sym string
+}
+
+// lenProfile: total constant length plus the sorted multiset of symbolic pieces of a concatenation.
+func lenProfile(t *T) lenProf {
+	parts := []*T{t}
+	if t.Op == "str.++" {
+		parts = t.Args
+	}
+	n := 0
+	var ids []string
+	for _, p := range parts {
+		switch {
+		case p.IsConst():
+			n += len(p.Str)
+		case p.FixLen > 0:
+			n += p.FixLen
+		case p.Op == "var" || p.Op == "uf" || p.Op == "select":
+			ids = append(ids, strconv.Itoa(p.id))
+		default:
+			return lenProf{sym: "?"}
+		}
+	}
+	sort.Strings(ids)
+	return lenProf{n: n, sym: strings.Join(ids, ",")}
+}
+
 // constPrefix returns the constant leading bytes of a string term.
 func constPrefix(t *T) (string, bool) {
 	if t.IsConst() {
@@ -406,7 +436,10 @@ func Eq(a, b *T) *T {
 				return tFalse
 			}
 		}
-		// int2bv-backed lengths etc. are handled elsewhere
+		// same symbolic pieces (as a multiset) but different constant length: lengths differ, so the strings differ
+		if la, lb, ok := lenProfile(a), lenProfile(b), true; ok && la.sym == lb.sym && la.n != lb.n && la.sym != "?" {
+			return tFalse
+		}
 	}
 	if a.Sort.K == SBV {
 		// (int2bv x) == const  ->  x == const when x is a length-like Int
